@@ -79,6 +79,8 @@ fn invalid_path(rng: &mut Rng, tree: &Node, valid: &[String], order: &[usize]) -
                         for o in objects.iter().filter(|o| o.matches('/').count() == 1) { cands.push(format!("{}{}", &o[1..], v)); }
                         cands.push(format!("x{}", v));
                     }
+                    // (a member named "" makes `/` + name start with a slash again: those are pointers, not this kind)
+                    cands.retain(|c| !c.starts_with('/'));
                     if cands.is_empty() { continue; }
                     return (rng.pick(&cands).clone(), pos, "no-leading-slash", true);
                 }
